@@ -78,8 +78,7 @@ def run_property(mod: Any, ctx: Ctx, args: Any, t0: float) -> int:
     # 1. translator ---------------------------------------------------------
     if hasattr(mod, 'translate'):
         try:
-            with vlib.lean_lock():
-                translate_info = mod.translate(ctx) or {}
+            translate_info = mod.translate(ctx) or {}
         except Exception as e:          # the code moved away from what the translator understands
             ctx.translator_fallbacks.append(f'translate() raised {type(e).__name__}: {e}')
             broken.append(f'translator:{type(e).__name__}')
